@@ -12,8 +12,12 @@ per text run; a catalogue of attribute values read back through the model getter
 corrupted (unknown attribute, malformed value, unknown token): no exception, snapshots equal those of the document without
 the attribute, a log record.
 
-Proof tier: ttconv.imsc.utils.parse_time_expression and the *.extract functions take strings and go through `re`, which pyvc
-does not model.  What IS callable with numbers is the temporal kernel ContentElement.ParsingContext.process once the three
+Proof tier, time expressions: the real reader on <p begin=EXPR end=EXPR2> where the digits of the expressions are formatted SYMBOLIC
+integers (format tokens) and the reader's compiled time-expression patterns are wrapped by pyvc.restub.TokenRegex: for each of 14
+syntax x parameter combinations (clock time with fraction, clock time with frames at 25 / 30 / 30*1000/1001, offsets in h m s ms f t
+with and without fraction under frameRate, frameRateMultiplier and tickRate) and EVERY value of every field, the begin and end
+stored in the model are the TTML2 media times of the expressions (Appendix I), as exact rationals.
+Proof tier, time containers: the temporal kernel ContentElement.ParsingContext.process once the three
 attribute extractors Begin/Dur/End.extract are replaced by stubs that return the (symbolic) rational named by the attribute
 value (A-RE: regular-expression groups abstracted): for a list of document shapes (par / seq nesting to depth 3, all eight
 begin/dur/end combinations on the marked elements) ALL timing values are symbolic non-negative rationals, the real `process`
@@ -244,7 +248,7 @@ def harness_for(name, xml_text):
 
 
 def all_harnesses(tier):
-  return [harness_for(k, v) for k, v in shapes().items()]
+  return [harness_for(k, v) for k, v in shapes().items()] + [syntax_harness(k) for k in SYNTAXES]
 
 
 def check(tier, seed, only=None, skip_a=False, skip_b=False):
@@ -286,3 +290,107 @@ def check(tier, seed, only=None, skip_a=False, skip_b=False):
                         "style properties other than the eight compared ones are checked as specified values only (value catalogue), not as computed.")
   cov["trusted_base"] = ASSUMPTIONS
   return framework.Outcome(PROP, tier, seed, "other", cov, ASSUMPTIONS, findings, undecided, errors, 0.0)
+
+
+# ---------------------------------------------------------------------------------------------------------------------
+# time expressions in every syntax, read by the REAL extractors (parse_time_expression behind its regular expressions)
+
+TT = "http://www.w3.org/ns/ttml"
+TTP = "http://www.w3.org/ns/ttml#parameter"
+
+# syntax -> (parameters on tt, frame rate used below | None, tick rate | None)
+SYNTAXES = {
+  "clock-time.fraction": ({}, None, None),
+  "clock-time:frames@30": ({"frameRate": "30"}, Fraction(30), None),
+  "clock-time:frames@30*1000/1001": ({"frameRate": "30", "frameRateMultiplier": "1000 1001"}, Fraction(30000, 1001), None),
+  "clock-time:frames@25": ({"frameRate": "25"}, Fraction(25), None),
+  "offset-h": ({}, None, None), "offset-m": ({}, None, None), "offset-s": ({}, None, None), "offset-ms": ({}, None, None),
+  "offset-f@24": ({"frameRate": "24"}, Fraction(24), None), "offset-f@24*1000/1001": ({"frameRate": "24", "frameRateMultiplier": "1000 1001"}, Fraction(24000, 1001), None),
+  "offset-t@1000": ({"tickRate": "1000"}, None, 1000), "offset-t@90000": ({"tickRate": "90000"}, None, 90000),
+  "offset-s.fraction": ({}, None, None), "offset-f.fraction@25": ({"frameRate": "25"}, Fraction(25), None),
+}
+
+
+def syntax_harness(name):
+  """The real IMSC reader on <p begin=EXPR end=EXPR2> where the digits of the time expressions are formatted SYMBOLIC integers (format
+  tokens) -- every value of every field -- with the reader's compiled time-expression patterns wrapped by restub.TokenRegex: the begin
+  and end stored in the model are the TTML2 media times of the expressions (Appendix I), as exact rationals."""
+  from pyvc import core, restub
+  from pyvc.core import assume, prove, sym_int
+  from pyvc.harness import Harness
+  params, fps, tick = SYNTAXES[name]
+
+  def run(ctx):
+    import xml.etree.ElementTree as et
+    import ttconv.imsc.utils as U
+    import ttconv.imsc.reader as reader
+    import ttconv.model as m
+
+    def field(n, hi=None):
+      x = sym_int(n)
+      assume(x >= 0)
+      if hi is not None:
+        assume(x < hi)
+      return x
+
+    def expr(prefix):
+      """-> (text with tokens, the media time it denotes)"""
+      kind = name.split("@")[0]
+      if kind.startswith("clock-time"):
+        h, mi, s = field(prefix + "h", 100), field(prefix + "m", 60), field(prefix + "s", 60)
+        base = h * 3600 + mi * 60 + s
+        if kind == "clock-time.fraction":
+          ms = field(prefix + "ms", 1000)
+          return f"{h:02d}:{mi:02d}:{s:02d}.{ms:03d}", base + Fraction(1, 1000) * ms
+        ff = field(prefix + "ff", int(fps) if fps.denominator == 1 else int(fps) + 1)
+        assume(ff < int(params["frameRate"]))
+        return f"{h:02d}:{mi:02d}:{s:02d}:{ff:02d}", base + ff / fps
+      n = field(prefix + "n")
+      metric = kind.split("-")[1].split(".")[0]
+      if ".fraction" in kind:
+        d = field(prefix + "d", 1000)
+        val = n + Fraction(1, 1000) * d
+        text = f"{n}.{d:03d}{metric}"
+      else:
+        val, text = n * Fraction(1), f"{n}{metric}"
+      scale = {"h": Fraction(3600), "m": Fraction(60), "s": Fraction(1), "ms": Fraction(1, 1000), "f": None, "t": None}[metric]
+      if metric == "f":
+        return text, val / fps
+      if metric == "t":
+        return text, val / tick
+      return text, val * scale
+
+    tb, want_b = expr("b_")
+    te, want_e = expr("e_")
+    root = et.Element(f"{{{TT}}}tt", {"{http://www.w3.org/XML/1998/namespace}lang": "en", **{f"{{{TTP}}}{k}": v for k, v in params.items()}})
+    body = et.SubElement(root, f"{{{TT}}}body")
+    div = et.SubElement(body, f"{{{TT}}}div")
+    p = et.SubElement(div, f"{{{TT}}}p", {"begin": tb, "end": te})
+    p.text = "x"
+    names = ["_CLOCK_TIME_FRACTION_RE", "_CLOCK_TIME_FRAMES_RE", "_OFFSET_FRAME_RE", "_OFFSET_TICK_RE", "_OFFSET_MS_RE", "_OFFSET_S_RE", "_OFFSET_H_RE", "_OFFSET_M_RE"]
+    saved = {n: U.__dict__[n] for n in names}
+    for n in names:
+      U.__dict__[n] = restub.TokenRegex(getattr(saved[n], "_real", saved[n]))
+    try:
+      st, doc = core.call_real(reader.to_model, et.ElementTree(root), allowed=())
+    finally:
+      for n in names:
+        U.__dict__[n] = saved[n]
+    ps = [e for e in doc.get_body().dfs_iterator() if isinstance(e, m.P)] if doc is not None and doc.get_body() is not None else []
+    if not (want_b < want_e):
+      return          # an empty or inverted interval: the element may be dropped (decided by the time-container harnesses)
+    prove(len(ps) == 1, "the-paragraph-is-read")
+    if len(ps) != 1:
+      return
+    gb, ge = ps[0].get_begin(), ps[0].get_end()
+    if gb is None:
+      gb = Fraction(0)        # (an absent begin is 0)
+    prove(not isinstance(gb, (float, core.SymFloat)), "begin-is-an-exact-rational")
+    prove(gb == want_b, "begin==TTML-media-time-of-the-expression", note=f"{tb}")
+    prove(ge is not None and ge == want_e, "end==TTML-media-time-of-the-expression", note=f"{te}")
+
+  return Harness(f"time-expression[{name}]", run,
+                 ["ttconv.imsc.utils:parse_time_expression", "ttconv.imsc.attributes:BeginAttribute.extract", "ttconv.imsc.attributes:EndAttribute.extract",
+                  "ttconv.imsc.attributes:FrameRateAttribute.extract", "ttconv.imsc.attributes:TickRateAttribute.extract", "ttconv.imsc.reader:to_model"],
+                 "replayers.c04:time_expression", {"syntax": name},
+                 "a time expression of this syntax is read as its TTML2 media time, exactly, for every value of every field")
